@@ -861,8 +861,8 @@ Fixpoint eval_expr (n : nat) (P : program) (e : env) (x : expr) {struct n} : M l
         end
     | EBin op _ a b =>
         let* la := eval_expr f P e a in
-        let* va := load la in
-        let short := match op, va with
+        let* va0 := load la in               (* canShortCircuit looks at the left value now *)
+        let short := match op, va0 with
                      | BAnd, HBool false => true
                      | BOr, HBool true => true
                      | _, _ => false
@@ -872,6 +872,10 @@ Fixpoint eval_expr (n : nat) (P : program) (e : env) (x : expr) {struct n} : M l
         | BEq => let* d := depth_fuel in let* r := equals d la lb in alloc (HBool r)
         | BNotEq => let* d := depth_fuel in let* r := equals d la lb in alloc (HBool (negb r))
         | _ =>
+            (* the operands' contents (l.V, *l.Elements) are read only now, after the right
+               operand has been evaluated: an in-place update of the left cell by the right
+               operand (array element store, err/errmsg) is visible *)
+            let* va := load la in
             match va with
             | HNum y => let* z := load_num lb in bin_num op y z
             | HStr y => let* z := load_str lb in bin_str op y z
